@@ -46,7 +46,10 @@ impl ProtoFmt for time::Utc {
     fn read(r: &Self::Proto) -> anyhow::Result<Self> {
         let seconds = *required(&r.seconds).context("seconds")?;
         let nanos = *required(&r.nanos).context("nanos")?;
-        Ok(time::UNIX_EPOCH + time::Duration::new(seconds, nanos))
+        let d = time::Duration::seconds(seconds)
+            .checked_add(time::Duration::nanoseconds(nanos.into()))
+            .context("overflow")?;
+        Ok(time::UNIX_EPOCH + d)
     }
 
     fn build(&self) -> Self::Proto {
@@ -64,7 +67,9 @@ impl ProtoFmt for time::Duration {
     fn read(r: &Self::Proto) -> anyhow::Result<Self> {
         let seconds = *required(&r.seconds).context("seconds")?;
         let nanos = *required(&r.nanos).context("nanos")?;
-        Ok(Self::new(seconds, nanos))
+        Self::seconds(seconds)
+            .checked_add(Self::nanoseconds(nanos.into()))
+            .context("overflow")
     }
 
     fn build(&self) -> Self::Proto {
